@@ -6,7 +6,7 @@ use qwt::verif::{self, Order};
 use serde::{Deserialize, Serialize};
 
 use crate::core::{catch, panic_kind, RunOut, Sig, Tier};
-use crate::ds::{build_bits, build_quads, build_tree, Alias, DynDs, DynIter, Flat, IterKind, Path, Ty, ALL_FLAT, ALL_TREES, ALL_TYS};
+use crate::ds::{build_bits, build_quads, build_tree, default_flat, default_tree, Alias, DynDs, DynIter, Flat, IterKind, Path, Ty, ALL_FLAT, ALL_TREES, ALL_TYS};
 use crate::gen::{gen_tree_seq, Seq, TreeGenCfg};
 use crate::prng::{stream, Digest, Rng};
 
@@ -21,6 +21,10 @@ pub enum Container {
     },
     Bits { kind: Flat, bits: String },
     Quads { kind: Flat, syms: Vec<u8> },
+    /// `Default::default()` of a tree type (an empty sequence that never went through a constructor)
+    TreeDefault { alias: Alias, ty: Ty },
+    /// `Default::default()` of a bit / quad structure
+    FlatDefault { kind: Flat },
 }
 
 #[derive(Clone, Copy, Debug, PartialEq, Eq, Serialize, Deserialize)]
@@ -32,6 +36,14 @@ pub enum Call {
     SizeHint,
     /// consume the rest through `Iterator::fold` (ends the history)
     FoldRest,
+    /// `nth(k)`: skips k elements, yields the next
+    Nth(usize),
+    /// `nth_back(k)`
+    NthBack(usize),
+    /// `count()` of the rest (ends the history)
+    CountRest,
+    /// `last()` of the rest (ends the history)
+    LastRest,
 }
 
 #[derive(Clone, Debug, PartialEq, Serialize, Deserialize)]
@@ -53,8 +65,33 @@ fn gen_n(rng: &mut Rng) -> usize {
 
 pub fn gen_case(run_seed: u64, tier: Tier) -> IterCase {
     let mut rng = stream(run_seed, "workload");
-    let (container, iter, n) = match rng.below(10) {
-        0..=4 => {
+    let (container, iter, n) = match rng.below(41) {
+        40 => {
+            // Default values: empty, but not built by any constructor
+            if rng.bool() {
+                (
+                    Container::TreeDefault { alias: *rng.pick(&ALL_TREES), ty: *rng.pick(&ALL_TYS) },
+                    *rng.pick(&[IterKind::Iter, IterKind::RefIntoIter, IterKind::IntoIter]),
+                    0,
+                )
+            } else {
+                let p = rng.usize_below(3) * rng.usize_below(600);
+                (
+                    Container::FlatDefault { kind: *rng.pick(&ALL_FLAT) },
+                    *rng.pick(&[
+                        IterKind::Iter,
+                        IterKind::RefIntoIter,
+                        IterKind::IntoIter,
+                        IterKind::Ones,
+                        IterKind::Zeros,
+                        IterKind::OnesFrom(p),
+                        IterKind::ZerosFrom(p),
+                    ]),
+                    0,
+                )
+            }
+        }
+        0..=19 => {
             let alias = *rng.pick(&ALL_TREES);
             let ty = *rng.pick(&ALL_TYS);
             let cfg = TreeGenCfg {
@@ -81,14 +118,31 @@ pub fn gen_case(run_seed: u64, tier: Tier) -> IterCase {
                 n,
             )
         }
-        5..=7 => {
+        20..=31 => {
             let kind = *rng.pick(&[Flat::BitVector, Flat::BitVectorMut, Flat::DArray, Flat::DArray0]);
-            let n = gen_n(&mut rng);
-            let density = *rng.pick(&[0u64, 1, 8, 32, 56, 63, 64]);
-            let bits: String = (0..n).map(|_| if rng.below(64) < density { '1' } else { '0' }).collect();
-            let p = match rng.below(4) {
+            let sparse = rng.chance(1, 4);
+            let (n, bits) = if sparse {
+                // several 512-bit lines, a handful of bits that differ from the background: the position
+                // iterators must cross whole empty words and lines
+                let n = rng.urange(513, 3300);
+                let bg = rng.bool();
+                let mut b = vec![bg; n];
+                for _ in 0..rng.below(7) {
+                    let i = rng.usize_below(n);
+                    b[i] = !bg;
+                }
+                (n, b.iter().map(|&x| if x { '1' } else { '0' }).collect::<String>())
+            } else {
+                let n = gen_n(&mut rng);
+                let density = *rng.pick(&[0u64, 1, 8, 32, 56, 63, 64]);
+                (n, (0..n).map(|_| if rng.below(64) < density { '1' } else { '0' }).collect::<String>())
+            };
+            let p = match rng.below(6) {
                 0 => n,
                 1 => n + rng.urange(1, 70),
+                // at / around a word or line boundary
+                2 => (rng.usize_below(n / 64 + 1) * 64 + rng.usize_below(3)).saturating_sub(1),
+                3 => (rng.usize_below(n / 512 + 1) * 512 + rng.usize_below(3)).saturating_sub(1),
                 _ => rng.usize_below(n + 1),
             };
             let kinds: Vec<IterKind> = match kind {
@@ -133,7 +187,7 @@ pub fn gen_case(run_seed: u64, tier: Tier) -> IterCase {
     let _ = ALL_FLAT;
     let _ = tier;
     // histories: biased to keep going after the first None
-    let n_calls = rng.urange(1, 2 * n + 12);
+    let n_calls = rng.urange(1, 2 * n.min(700) + 12);
     let style = rng.below(5);
     let calls: Vec<Call> = (0..n_calls)
         .map(|k| match style {
@@ -166,19 +220,35 @@ pub fn gen_case(run_seed: u64, tier: Tier) -> IterCase {
         let k = rng.usize_below(calls.len() + 1);
         calls.insert(k, Call::SizeHint);
     }
-    if rng.chance(1, 4) {
-        // cut the history somewhere and consume the rest by internal iteration
+    if rng.chance(1, 3) {
+        // a few skipping calls (what an O(1) "jump" optimisation of nth would touch)
+        for _ in 0..rng.urange(1, 3) {
+            let k = rng.usize_below(calls.len() + 1);
+            let skip = match rng.below(4) {
+                0 => 0,
+                1 => rng.usize_below(n + 2),
+                _ => rng.usize_below(n / 4 + 2),
+            };
+            calls.insert(k, if rng.bool() { Call::Nth(skip) } else { Call::NthBack(skip) });
+        }
+    }
+    if rng.chance(1, 3) {
+        // cut the history somewhere and consume the rest by internal iteration / count / last
         let k = rng.usize_below(calls.len() + 1);
         calls.truncate(k);
-        calls.push(Call::FoldRest);
+        calls.push(*rng.pick(&[Call::FoldRest, Call::FoldRest, Call::CountRest, Call::LastRest]));
     }
     IterCase { container, iter, calls }
 }
 
 fn iterator_type(c: &Container, k: IterKind) -> &'static str {
     match (c, k) {
-        (Container::Tree { .. }, _) => "WTIterator",
+        (Container::Tree { .. } | Container::TreeDefault { .. }, _) => "WTIterator",
         (Container::Quads { .. }, _) => "QVectorIterator",
+        (Container::FlatDefault { kind: Flat::QVector | Flat::RSQVector256 | Flat::RSQVector512 }, _) => "QVectorIterator",
+        (Container::FlatDefault { .. }, IterKind::IntoIter) => "BitVectorIntoIter",
+        (Container::FlatDefault { .. }, IterKind::Iter | IterKind::RefIntoIter) => "BitVectorIter",
+        (Container::FlatDefault { .. }, _) => "BitVectorBitPositionsIter",
         (Container::Bits { .. }, IterKind::IntoIter) => "BitVectorIntoIter",
         (Container::Bits { .. }, IterKind::Iter | IterKind::RefIntoIter) => "BitVectorIter",
         (Container::Bits { .. }, _) => "BitVectorBitPositionsIter",
@@ -229,6 +299,8 @@ pub fn exec(case: &IterCase) -> RunOut {
             let t = build_quads(*kind, syms);
             (t, syms.iter().map(|&s| (s & 3) as u128).collect())
         }
+        Container::TreeDefault { alias, ty } => (default_tree(*alias, *ty), vec![]),
+        Container::FlatDefault { kind } => (default_flat(*kind), vec![]),
     });
     let (ds, elems) = match built {
         Ok(x) => x,
@@ -246,14 +318,23 @@ pub fn exec(case: &IterCase) -> RunOut {
     // obtain the iterator
     let kind = case.iter;
     let mut boxed_keep: Option<Box<dyn DynDs>> = None;
-    let it: Option<Box<dyn DynIter + '_>> = if kind == IterKind::IntoIter {
-        match catch(|| ds.into_iter_box()) {
-            Ok(x) => x,
-            Err(_) => None,
-        }
+    let obtained: Result<Option<Box<dyn DynIter + '_>>, String> = if kind == IterKind::IntoIter {
+        catch(|| ds.into_iter_box())
     } else {
         boxed_keep = Some(ds);
-        boxed_keep.as_ref().unwrap().iter_box(kind)
+        let keep = boxed_keep.as_ref().unwrap();
+        catch(|| keep.iter_box(kind))
+    };
+    let it = match obtained {
+        Ok(x) => x,
+        Err(msg) => {
+            out.violate(
+                sig("obtain_iterator", panic_kind(&msg), if n0 == 0 { "empty_container" } else { "general" }),
+                format!("obtaining the {kind:?} iterator ({fam}) of a container of {n0} elements panicked: {msg}"),
+            );
+            out.digest = 11;
+            return out;
+        }
     };
     let Some(it) = it else {
         out.count("iterator_kind_not_offered_by_type", 1);
@@ -289,6 +370,85 @@ pub fn exec(case: &IterCase) -> RunOut {
                     break;
                 }
             },
+            Call::Nth(skip) => {
+                let skip = *skip;
+                for _ in 0..skip.min(model.len()) {
+                    model.pop_front();
+                }
+                let e = model.pop_front();
+                used_front = true;
+                match catch(|| it.nth(skip)) {
+                    Ok(g) => {
+                        digest.opt_u128(g);
+                        if g != e {
+                            let class = if g.is_none() { "none_for_some" } else if e.is_none() { "some_for_none" } else { "wrong_value" };
+                            out.violate(sig("nth", class, shape), format!("call #{k} nth({skip}) on {fam} over {n0} elements returned {g:?}, the sequence gives {e:?}"));
+                            break;
+                        }
+                    }
+                    Err(msg) => {
+                        out.violate(sig("nth", panic_kind(&msg), shape), format!("call #{k} nth({skip}) on {fam} over {n0} elements panicked: {msg}"));
+                        break;
+                    }
+                }
+                if e.is_none() {
+                    exhausted = true;
+                }
+            }
+            Call::NthBack(skip) => {
+                let skip = *skip;
+                match catch(|| it.nth_back(skip)) {
+                    Ok(None) => {}
+                    Ok(Some(g)) => {
+                        for _ in 0..skip.min(model.len()) {
+                            model.pop_back();
+                        }
+                        let e = model.pop_back();
+                        used_back = true;
+                        digest.opt_u128(g);
+                        if g != e {
+                            let class = if g.is_none() { "none_for_some" } else if e.is_none() { "some_for_none" } else { "wrong_value" };
+                            out.violate(sig("nth_back", class, shape), format!("call #{k} nth_back({skip}) on {fam} over {n0} elements returned {g:?}, the sequence gives {e:?}"));
+                            break;
+                        }
+                        if e.is_none() {
+                            exhausted = true;
+                        }
+                    }
+                    Err(msg) => {
+                        out.violate(sig("nth_back", panic_kind(&msg), shape), format!("call #{k} nth_back({skip}) on {fam} over {n0} elements panicked: {msg}"));
+                        break;
+                    }
+                }
+            }
+            Call::CountRest => {
+                let boxed = it_slot.take().unwrap();
+                let e = model.len();
+                match catch(|| boxed.count_rest()) {
+                    Ok(g) => {
+                        digest.u64(g as u64);
+                        if g != e {
+                            out.violate(sig("count", "wrong_value", shape), format!("call #{k} count() on the rest of {fam} over {n0} elements returned {g}, {e} elements were left"));
+                        }
+                    }
+                    Err(msg) => out.violate(sig("count", panic_kind(&msg), shape), format!("call #{k} count() on {fam} panicked: {msg}")),
+                }
+                break;
+            }
+            Call::LastRest => {
+                let boxed = it_slot.take().unwrap();
+                let e = model.back().copied();
+                match catch(|| boxed.last_rest()) {
+                    Ok(g) => {
+                        digest.opt_u128(g);
+                        if g != e {
+                            out.violate(sig("last", "wrong_value", shape), format!("call #{k} last() on the rest of {fam} over {n0} elements returned {g:?}, the sequence gives {e:?}"));
+                        }
+                    }
+                    Err(msg) => out.violate(sig("last", panic_kind(&msg), shape), format!("call #{k} last() on {fam} panicked: {msg}")),
+                }
+                break;
+            }
             Call::FoldRest => {
                 let boxed = it_slot.take().unwrap();
                 let rest: Vec<u128> = model.drain(..).collect();
@@ -403,7 +563,7 @@ pub fn exec(case: &IterCase) -> RunOut {
         _ => 4,
     });
     for c in case.calls.iter().take(24) {
-        fp.u64(*c as u64);
+        fp.str(&format!("{:?}", std::mem::discriminant(c)));
     }
     fp.u64(case.calls.len().min(40) as u64 / 4);
     out.fps.push(fp.0);
